@@ -157,6 +157,7 @@ def stateless (w : List String) : Option String :=
     match pickFallback rcs nc fts with
     | .resp rc => some s!"resp:{rc}"
     | .error e => some s!"err:{boolStr e.fatal}:{causeStr e.cause}"
+  | "fail" :: "l3zone" :: _ => some "unmodelled"
   | ["fail", "response", kind, rd, cd, udp, dobit, codes] => do
     let rd ← parseBool rd; let cd ← parseBool cd; let udp ← udp.toNat?; let dobit ← parseBool dobit
     let codes ← (parseCsv codes).mapM (·.toNat?)
@@ -297,6 +298,23 @@ def stateful (s : Store) (w : List String) : Option (Store × String) :=
         | .servfail => s.writeBackFailure H now ctx k 0
         | _ => (s.setFromResponse H now k.name k.qtype k.qclass k.cd false .useful).resetMatchingFailures H k
       some (s', s!"miss upstream=1 rcode={rc} {lenLookup s' now k}")
+  | ["alias", n, c, cd, _opt, now, outcome] => do
+    let k ← parseQ [n, "1", c, cd, "-"]; let now ← parseInt now
+    match s.lookupFailure H now k with
+    | some _ => some (s, "hit upstream=0 target=0 rcode=2")
+    | none =>
+      if outcome == "ok" then
+        let s' := (s.setFromResponse H now k.name k.qtype k.qclass k.cd false .useful).resetMatchingFailures H k
+        some (s', s!"miss upstream=1 target=1 rcode=0 {lenLookup s' now k}")
+      else
+        let mark := if outcome.startsWith "local:" then (outcome.drop 6).toString
+                    else if outcome == "err:attempt" then "attempt" else "none"
+        let ctx ← parseCtx "-" mark
+        -- the failing hop's provenance is carried to the outer SERVFAIL; a request-local one is not shared,
+        -- and the driver then sends a second, independent client
+        let s' := s.writeBackFailure H now ctx k 0
+        let cnt := if ctx.marked.isRequestLocal then 2 else 1
+        some (s', s!"miss upstream={cnt} target={cnt} rcode=2 {lenLookup s' now k}")
   | "write" :: flags :: mark :: n :: t :: c :: cd :: sc :: [now, wit, cls] => do
     let ctx ← parseCtx flags mark
     let k ← parseQ [n, t, c, cd, sc]; let now ← parseInt now; let wit ← wit.toNat?; let cls ← respClass cls
